@@ -153,7 +153,7 @@ package capnp
 //@   ensures wfStruct(r)
 //@   ensures [C02] depth: r.depthLimit <= p.depthLimit
 //@   ensures implies(!isBit(p), r.seg == p.seg && M(r.off) == elemAddr(p, i) && r.size == p.size && r.flags == isListMember)
-//@   ensures implies(isBit(p), r.seg == nil)
+//@   ensures implies(isBit(p), r == Struct{})
 
 //@ func bitListSize -> r
 //@   props C01 C03
